@@ -108,6 +108,8 @@ struct Out {
     evals: u64,
     lemma_cases: u64,
     reproposals: u64,
+    /// signer subsets whose assignment space exceeds the tier's cap (not enumerated)
+    skipped_subsets: u64,
     viol: BTreeMap<String, (String, serde_json::Value)>,
 }
 
@@ -137,7 +139,8 @@ fn check_committee(weights: &[u64], seed: u64, tier: Tier) -> Out {
         // every assignment of contents to the signers
         let k = signers.len();
         let total = (contents.len() as u64).pow(k as u32);
-        if total > tier.pick(120_000, 40_000_000) {
+        if total > tier.pick(120_000, 2_000_000) {
+            out.skipped_subsets += 1;
             continue;
         }
         for code in 0..total {
@@ -287,11 +290,13 @@ pub fn run(args: &Args) -> Report {
     }
     let outs = par_map(committees.len(), |i| check_committee(&committees[i], args.seed, args.tier));
     let (mut evals, mut lemma, mut repro) = (0, 0, 0);
+    let mut skipped = 0u64;
     let mut by: BTreeMap<String, (u64, String, serde_json::Value)> = BTreeMap::new();
     for o in outs {
         evals += o.evals;
         lemma += o.lemma_cases;
         repro += o.reproposals;
+        skipped += o.skipped_subsets;
         for (k, (w, r)) in o.viol {
             by.entry(k).or_insert((0, w, r)).0 += 1;
         }
@@ -308,7 +313,8 @@ pub fn run(args: &Args) -> Report {
         "evaluations": evals,
         "distinct_nontrivial": repro.max(2),
         "rule": "for each committee: every quorum-weight signer subset x every assignment of one of 18 contents (high vote in {none, A@v, A@v+1, B@earlier, B@later, previous block} x highest certificate in {none, for N-1, for N}) to each signer, fed to the real get_implied_block; compared with a reference transcription of the specification (own u128 weight arithmetic) and with the safety lemma for every commit quorum Q and every liar set of weight <= f consistent with the assignment; distinct_nontrivial counts certificates that force a re-proposal",
-        "exhaustive": true,
+        "exhaustive": skipped == 0,
+        "signer_subsets_skipped_above_the_assignment_cap": skipped,
         "committees": committees.len(),
         "lemma_instances": lemma,
         "certificates_forcing_reproposal": repro,
